@@ -456,14 +456,19 @@ class _Runner:
         """ObjectiveRecorder: hypervolume(-objectives, max(-objectives)) after every job"""
         from deephyper.evaluator.callback import ObjectiveRecorder
 
+        from deephyper.evaluator.callback import LoggerCallback, SearchEarlyStopping
+
         ck = self.ck
         rec = ObjectiveRecorder()
+        # the two public users of the recorder: what they print must be the same (exact) hypervolume
+        logger, stopper = LoggerCallback(), SearchEarlyStopping(patience=10 ** 9, verbose=1)
         seen = []
         for o in objs_seq:
             job = types.SimpleNamespace(objective=o)
             case = {"kind": kind, "objectives": seen + [o]}
             try:
                 val = rec(job)
+                self._callbacks(logger, stopper, job, val, case)
             except Exception as e:  # noqa
                 numeric = [x for x in seen + [o] if not isinstance(x, str)]
                 ck.case(case)
@@ -483,6 +488,46 @@ class _Runner:
             ck.case(case, nontrivial=len(pts) >= 2)
             self.reqs.append(_req(pts, ref, ["fast"]))
             self.metas.append(("recorder", {**case, "ref": ref, "pts": pts, "exact": True}, float(val), None))
+
+    def _callbacks(self, logger, stopper, job, val, case):
+        """LoggerCallback / SearchEarlyStopping on the same job: the hypervolume they report (5 decimals)
+        is the recorder's value `val`, which is compared with the exact value separately"""
+        import contextlib
+        import io
+        import re
+
+        ck = self.ck
+        numeric = not isinstance(job.objective, str)
+        for name, cb in (("LoggerCallback", logger), ("SearchEarlyStopping", stopper)):
+            buf = io.StringIO()
+            try:
+                with contextlib.redirect_stdout(buf):
+                    cb.on_done(job)
+            except Exception as e:  # noqa
+                if numeric:
+                    ck.fail(f"C12|raises|{name}|{type(e).__name__}", f"{name}.on_done raised on a numeric multi-objective job", case, repr(e))
+                else:
+                    ck.count(f"{name}:raises-on-failure-string")
+                continue
+            out = buf.getvalue()
+            ck.count(f"{name}:on_done")
+            if name == "LoggerCallback" and numeric:
+                mm = re.search(r"HVI Objective: (-?[0-9.]+|-?inf|nan)", out)
+                if mm is None:
+                    ck.count("LoggerCallback:format-not-recognised")
+                elif mm.group(1) != f"{val:.5f}":
+                    ck.fail("C12|exact|LoggerCallback|printed-hvi", "LoggerCallback prints a hypervolume different from the recorder's", case,
+                            {"printed": mm.group(1), "recorder": val})
+                else:
+                    ck.count("LoggerCallback:hvi-compared")
+            if name == "SearchEarlyStopping":
+                mm = re.search(r"improved from (\S+) -> (\S+)", out)
+                if mm is not None:
+                    if mm.group(2) != f"{val:.5f}":
+                        ck.fail("C12|exact|SearchEarlyStopping|printed-improvement", "SearchEarlyStopping reports a hypervolume different from the recorder's",
+                                case, {"printed": mm.group(2), "recorder": val})
+                    else:
+                        ck.count("SearchEarlyStopping:improvement-compared")
 
     # -- judge the Lean replies
     def judge(self, nproc):
